@@ -48,6 +48,11 @@ def case_st(draw):
             t[1] = draw(st.lists(st.sampled_from([0, 1, hi, lo, hi // 2, 100 if hi >= 100 else 1]),
                                  min_size=size, max_size=size))
         desc.pop("dtype") if desc["kind"] == "b" else None
+        if draw(st.integers(0, 2)) == 0:
+            # ... and with exponents whose repeated factors leave 32 bits: e*(e-1) > 2**32 from e = 65537 on,
+            # e*(e-1)*(e-2) already for e = 2000
+            scale = draw(st.sampled_from([700, 20000, 33000]))
+            desc["terms"] = [[[e * scale for e in t[0]], t[1]] for t in desc["terms"]]
         narrow = True
     else:
         narrow = False
